@@ -385,6 +385,38 @@ def h_manager(h):
         b=e.thermo is m.thermodynamics and e.hydrodynamics is m.hydrodynamics))
 
 
+def h_manager_rebuild(h):
+    """setting the manager up again (same Tn, other model / settings) rebuilds the hydrodynamics
+    from the CURRENT thermodynamics and configuration: nothing of the previous point survives"""
+    import WallGo.manager as MG
+    from WallGo.config import Config
+    built = []
+
+    class HydroSpy:
+        def __init__(self, thermodynamics, tmax, tmin, rtol, atol):
+            self.thermodynamics, self.args = thermodynamics, (tmax, tmin, rtol, atol)
+            built.append(self)
+    h.patch_always(MG, Hydrodynamics=HydroSpy)
+    m = MG.WallGoManager.__new__(MG.WallGoManager)
+    m.config = Config()
+    Tn = h.real("Tn", 0.5, 500, default=100.0)
+    th1 = types.SimpleNamespace(Tnucl=Tn, tag=1)
+    th2 = types.SimpleNamespace(Tnucl=Tn, tag=2)
+    m.hydrodynamics = None
+    m.phasesAtTn = types.SimpleNamespace(temperature=Tn)
+    m._initHydrodynamics(th1)
+    first = m.hydrodynamics
+    m.config.configHydrodynamics.tmax = 7.0
+    m.config.configHydrodynamics.relativeTol = 1e-8
+    m._initHydrodynamics(th2)
+    second = m.hydrodynamics
+    h.prove("second set-up builds a new hydrodynamics object", Cond(b=second is not first and len(built) == 2))
+    h.prove("it is built from the current thermodynamics", Cond(b=second.thermodynamics is th2))
+    h.prove("and from the current configuration", Cond(b=second.args[0] == 7.0 and second.args[2] == 1e-8
+                                                       and second.args[1] == m.config.configHydrodynamics.tmin
+                                                       and second.args[3] == m.config.configHydrodynamics.absoluteTol))
+
+
 HARNESSES = [
     HarnessDef("solveWall", h_solvewall, [dict(includeOffEq=False)],
                [dict(includeOffEq=False), dict(includeOffEq=True)], max_paths=900, timeout_s=30,
@@ -395,6 +427,8 @@ HARNESSES = [
     HarnessDef("manager-construction", h_manager, [dict()], max_paths=40, timeout_s=60,
                encodes=[_MG.WallGoManager.setupWallSolver, _MG.WallGoManager.buildGrid,
                         _MG.WallGoManager.buildEOM, EOMM.EOM.__init__], random_validation=1),
+    HarnessDef("manager-rebuild", h_manager_rebuild, [dict()], max_paths=10, timeout_s=30,
+               encodes=[_MG.WallGoManager._initHydrodynamics], random_validation=1),
     HarnessDef("deflagration-window", h_deflag_window, [dict()], max_paths=900, timeout_s=30,
                encodes=[EOMM.EOM.findWallVelocityDeflagrationHybrid], random_validation=0,
                concrete_alarms=False),
